@@ -139,7 +139,9 @@ static inline void myth_queue_clear(myth_thread_queue_t q)
   myth_wsqueue_lock_lock(&q->lock);
   myth_assert(q->top == q->base);
   q->base = q->size/2;
+  MYTH_VERIF_POINT(MYTH_VP_WSQ_CL1, q, 0, q->base);
   q->top = q->base;
+  MYTH_VERIF_POINT(MYTH_VP_WSQ_CL2, q, 0, q->top);
   myth_wsqueue_lock_unlock(&q->lock);
 #if USE_LOCK || USE_LOCK_CLEAR
   myth_spin_unlock_body(&q->m_lock);
@@ -156,6 +158,7 @@ static inline void __attribute__((always_inline)) myth_queue_push(myth_thread_qu
 #endif
   //Check
   int t = q->top;
+  MYTH_VERIF_POINT(MYTH_VP_WSQ_PU0, q, th, t);
   //read barrier
   myth_wsqueue_rbarrier();
   if (t == q->size){
@@ -163,18 +166,23 @@ static inline void __attribute__((always_inline)) myth_queue_push(myth_thread_qu
     myth_wsqueue_lock_lock(&q->lock);
     //Runqueue full?
     if (q->base == 0){
+      MYTH_VERIF_POINT(MYTH_VP_WSQ_PUB, q, th, 0);
       myth_assert(0);
       fprintf(stderr, "Fatal error:Runqueue overflow\n");
       abort();
       /* TODO:extend runqueue */
     } else {
       //Shift pointers
+      MYTH_VERIF_POINT(MYTH_VP_WSQ_PUB, q, th, q->base);
       int offset = (- q->base - 1) / 2;
       myth_assert(offset < 0);
       memmove(&q->ptr[q->base+offset], &q->ptr[q->base], 
 	      sizeof(myth_thread_t) * (q->top - q->base));
+      MYTH_VERIF_POINT(MYTH_VP_WSQ_PUM, q, th, offset);
       q->top += offset;
+      MYTH_VERIF_POINT(MYTH_VP_WSQ_PUS, q, th, q->top);
       q->base += offset;
+      MYTH_VERIF_POINT(MYTH_VP_WSQ_PUV, q, th, q->base);
     }
     t = q->top;
     myth_assert(t < q->size);
@@ -182,8 +190,10 @@ static inline void __attribute__((always_inline)) myth_queue_push(myth_thread_qu
   }
   //Do not need to extend of move.
   q->ptr[t] = th;
+  MYTH_VERIF_POINT(MYTH_VP_WSQ_PU1, q, th, t);
   myth_wsqueue_wbarrier();//Guarantee W-W dependency
   q->top = t + 1;
+  MYTH_VERIF_POINT(MYTH_VP_WSQ_PU2, q, th, t + 1);
 #if USE_LOCK || USE_LOCK_PUSH
   myth_spin_unlock_body(&q->m_lock);
 #endif
@@ -197,8 +207,10 @@ static inline myth_thread_t __attribute__((always_inline)) myth_queue_pop(myth_t
 
 #if QUICK_CHECK_ON_POP
   if (q->top <= q->base) {
+    MYTH_VERIF_POINT(MYTH_VP_WSQ_PQ, q, 0, 0);
     return NULL;
   }
+  MYTH_VERIF_POINT(MYTH_VP_WSQ_PQ, q, 0, 1);
 #endif
 
 #if USE_LOCK || USE_LOCK_POP
@@ -209,11 +221,14 @@ static inline myth_thread_t __attribute__((always_inline)) myth_queue_pop(myth_t
   top = q->top;
   top--;
   q->top = top;
+  MYTH_VERIF_POINT(MYTH_VP_WSQ_PO1, q, 0, top);
   //Decrement and check top
   myth_wsqueue_rwbarrier();
   base = q->base;
+  MYTH_VERIF_POINT(MYTH_VP_WSQ_PO2, q, 0, base);
   if (base + 1 < top){
     ret = q->ptr[top];
+    MYTH_VERIF_POINT(MYTH_VP_WSQ_PO3, q, ret, top);
     //q->ptr[top]=NULL;
 #if USE_LOCK || USE_LOCK_POP
     myth_spin_unlock_body(&q->m_lock);
@@ -223,9 +238,13 @@ static inline myth_thread_t __attribute__((always_inline)) myth_queue_pop(myth_t
   } else {
     myth_wsqueue_lock_lock(&q->lock);
     base = q->base;
+    MYTH_VERIF_POINT(MYTH_VP_WSQ_PO4, q, 0, base);
     if (base <= top){//OK
       ret = q->ptr[top];
+      MYTH_VERIF_POINT(MYTH_VP_WSQ_PO5, q, ret, top);
       q->ptr[top] = NULL;
+      MYTH_VERIF_POINT(MYTH_VP_WSQ_PO5B, q, 0, top);
+      MYTH_VERIF_POINT(MYTH_VP_WSQ_PO5C, q, 0, top <= base);
       if (top <= base) {
 	//invalidate cache
 	myth_wscache_t wc = &q->wc;
@@ -240,6 +259,7 @@ static inline myth_thread_t __attribute__((always_inline)) myth_queue_pop(myth_t
 	//Increment sequence
 	myth_wsqueue_wbarrier();
 	wc->seq = s + 2;
+	MYTH_VERIF_POINT(MYTH_VP_WSQ_PO5D, q, 0, 0);
       }
       myth_wsqueue_lock_unlock(&q->lock);
 #if USE_LOCK || USE_LOCK_POP
@@ -249,7 +269,9 @@ static inline myth_thread_t __attribute__((always_inline)) myth_queue_pop(myth_t
       return ret;
     } else {
       q->top = q->size/2;
+      MYTH_VERIF_POINT(MYTH_VP_WSQ_PO7, q, 0, q->top);
       q->base = q->size/2;
+      MYTH_VERIF_POINT(MYTH_VP_WSQ_PO8, q, 0, q->base);
       myth_wsqueue_lock_unlock(&q->lock);
 #if USE_LOCK || USE_LOCK_POP
       myth_spin_unlock_body(&q->m_lock);
@@ -274,9 +296,12 @@ static inline myth_thread_t myth_queue_take(myth_thread_queue_t q)
   myth_thread_t ret;
   int b,top;
 #if QUICK_CHECK_ON_STEAL
+  MYTH_VERIF_POINT(MYTH_VP_WSQ_TQ0, q, 0, q->top);
   if (q->top - q->base <= 0){
+    MYTH_VERIF_POINT(MYTH_VP_WSQ_TQ1, q, 0, 0);
     return NULL;
   }
+  MYTH_VERIF_POINT(MYTH_VP_WSQ_TQ1, q, 0, 1);
 #endif
 #if USE_LOCK || USE_LOCK_TAKE
   myth_spin_lock_body(&q->m_lock);
@@ -293,11 +318,14 @@ static inline myth_thread_t myth_queue_take(myth_thread_queue_t q)
   //Increment base
   b = q->base;
   q->base = b + 1;
+  MYTH_VERIF_POINT(MYTH_VP_WSQ_TK1, q, 0, b);
   myth_wsqueue_rwbarrier();
   top = q->top;
+  MYTH_VERIF_POINT(MYTH_VP_WSQ_TK2, q, 0, top);
   if (b < top){
     myth_wsqueue_rbarrier();
     ret = q->ptr[b];
+    MYTH_VERIF_POINT(MYTH_VP_WSQ_TK3, q, ret, b);
     //q->ptr[b]=NULL;
     myth_wsqueue_lock_unlock(&q->lock);
 #if USE_LOCK || USE_LOCK_TAKE
@@ -306,6 +334,7 @@ static inline myth_thread_t myth_queue_take(myth_thread_queue_t q)
     return ret;
   }else{
     q->base = b;
+    MYTH_VERIF_POINT(MYTH_VP_WSQ_TK5, q, 0, b);
     myth_wsqueue_lock_unlock(&q->lock);
 #if USE_LOCK || USE_LOCK_TAKE
     myth_spin_unlock_body(&q->m_lock);
@@ -320,18 +349,24 @@ static inline myth_thread_t myth_queue_peek(myth_thread_queue_t q)
   myth_thread_t ret;
   int b,top;
 #if QUICK_CHECK_ON_STEAL
+  MYTH_VERIF_POINT(MYTH_VP_WSQ_KQ0, q, 0, q->top);
   if (q->top - q->base <= 0){
+    MYTH_VERIF_POINT(MYTH_VP_WSQ_KQ1, q, 0, 0);
     return NULL;
   }
+  MYTH_VERIF_POINT(MYTH_VP_WSQ_KQ1, q, 0, 1);
 #endif
   //myth_wsqueue_lock_lock(&q->lock);
   //if (!myth_wsqueue_lock_trylock(&q->lock))return NULL;
   //Increment base
   b = q->base;
+  MYTH_VERIF_POINT(MYTH_VP_WSQ_PK1, q, 0, b);
   top = q->top;
+  MYTH_VERIF_POINT(MYTH_VP_WSQ_PK2, q, 0, top);
   if (b < top){
     myth_wsqueue_rbarrier();
     ret = q->ptr[b];
+    MYTH_VERIF_POINT(MYTH_VP_WSQ_PK3, q, ret, b);
     //myth_wsqueue_lock_unlock(&q->lock);
     return ret;
   }else{
@@ -350,14 +385,18 @@ static inline int myth_queue_trypass(myth_thread_queue_t q,myth_thread_t th)
   int ret = 1;
   if (!myth_wsqueue_lock_trylock(&q->lock)) return 0;
   if (q->base == 0){
+    MYTH_VERIF_POINT(MYTH_VP_WSQ_TP1, q, th, 0);
     ret = 0;
   }
   else{
     int b;
+    MYTH_VERIF_POINT(MYTH_VP_WSQ_TP1, q, th, q->base);
     b = q->base;
     q->ptr[b-1] = th;
+    MYTH_VERIF_POINT(MYTH_VP_WSQ_TP2, q, th, b - 1);
     myth_wsqueue_wbarrier();
     q->base--;
+    MYTH_VERIF_POINT(MYTH_VP_WSQ_TP3, q, th, q->base);
   }
   myth_wsqueue_lock_unlock(&q->lock);
 #if USE_LOCK || USE_LOCK_TRYPASS
@@ -384,26 +423,39 @@ static inline void myth_queue_put(myth_thread_queue_t q, myth_thread_t th)
 #endif
   myth_wsqueue_lock_lock(&q->lock);
   if (q->base == 0){
+    MYTH_VERIF_POINT(MYTH_VP_WSQ_PT1, q, th, 0);
     /* queue underflow at the bottom. move the contents higher */
     if (q->top == q->size){
+      MYTH_VERIF_POINT(MYTH_VP_WSQ_PT2, q, th, -1);
       myth_assert(0);
       fprintf(stderr,"Fatal error:Runqueue overflow\n");
       abort();
     } else {
       int offset = (q->size - q->top + 1) / 2;
+      MYTH_VERIF_POINT(MYTH_VP_WSQ_PT2, q, th, offset);
       myth_assert(offset > 0);
       memmove(&q->ptr[q->base + offset], &q->ptr[q->base],
 	      sizeof(myth_thread_t) * (q->top - q->base));
+      MYTH_VERIF_POINT(MYTH_VP_WSQ_PT3, q, th, offset);
       q->top += offset;
+      MYTH_VERIF_POINT(MYTH_VP_WSQ_PT4, q, th, q->top);
       q->base += offset;
+      MYTH_VERIF_POINT(MYTH_VP_WSQ_PT5, q, th, q->base);
       myth_assert(q->base > 0);
     }
   }
+#ifdef MYTH_VERIF
+  else {
+    MYTH_VERIF_POINT(MYTH_VP_WSQ_PT1, q, th, q->base);
+  }
+#endif
   int b = q->base;
   myth_assert(b > 0);
   b--;
   q->ptr[b] = th;
+  MYTH_VERIF_POINT(MYTH_VP_WSQ_PT7, q, th, b);
   q->base = b;
+  MYTH_VERIF_POINT(MYTH_VP_WSQ_PT8, q, th, b);
   myth_wsqueue_lock_unlock(&q->lock);
 #if USE_LOCK || USE_LOCK_PUSH
   myth_spin_unlock_body(&q->m_lock);
